@@ -30,7 +30,11 @@ func main() {
 	case "sites": // debugging: codec sites <target> <seed index>
 		debugSites(os.Args[2], os.Args[3])
 	case "case": // debugging: codec case <target> <hex>
-		replayC02("C02", caseReplay{Target: os.Args[2], Kind: "builtin", Hex: os.Args[3], Desc: "manual"})
+		prop := "C02"
+		if len(os.Args) > 4 {
+			prop = os.Args[4]
+		}
+		replayC02(prop, caseReplay{Target: os.Args[2], Kind: "builtin", Hex: os.Args[3], Desc: "manual"})
 	default:
 		evid.EngineError(os.Args[1], "harness/codec does not implement this property")
 	}
